@@ -1,6 +1,6 @@
 (* Extract.v -- extraction of the executable model (ExtrOcamlBasic only: bool, option, unit,
    list, prod, sumbool, sumor map to OCaml's; N, Z, positive, ascii, string stay inductive). *)
-Require Import Base Mol Partition Canon Final Text Token Serialize Parse Molfile V3000 V2000 Writer Permute Pipeline Fast AntlrItem AntlrExec.
+Require Import Base Mol Partition Canon Final Text Token Serialize Parse Molfile V3000 V2000 Writer Permute Pipeline Fast AntlrItem AntlrExec AntlrLex.
 Require Extraction.
 Require Import ExtrOcamlBasic.
 Extraction Language OCaml.
@@ -8,7 +8,7 @@ Extraction "../ocaml/tucan_model.ml"
   classes_fast rounds_fast partition_by_inv_fast canonicalize_with_fast classes rounds refine_fuel partition_by_inv canonicalize_with final_labels assign_final_labels sort_by_Z
   serialize serialize_tokens tokens_of print_tokens
   lex_text parse_tokens sem ref_parse
-  antlr_recognise antlr_types antlr_accepts_types
+  antlr_recognise antlr_types antlr_accepts_types antlr_lex
   splitlines read_molfile read_v3000 read_v2000 graph_from_molecule
   write_molfile write_lines wrap
   permute permute1 enforce same_edges
